@@ -46,7 +46,7 @@ CLAIMED = {
             "the retained-removal and of the PUBREC reason check and carries the PUBREC's identifier; release entries are "
             "removed only by the PUBCOMP arm with that identifier; no order-breaking operation on the release queue; "
             "PUBREL is serialised from the step's identifier and release entries are re-armed for replay. Interleavings of "
-            "several exchanges are covered through these per-entry invariants, not enumerated. The PUBCOMP removal takes out exactly the entry it looked up (index provenance: position over the whole list, or over the tail plus one). The removal functions report true exactly when they removed an entry; the PUBREC's lookup of the PUBLISH tests the identifier only (a replayed PUBLISH has DUP set). ReasonCode::success is tabulated over every variant against the 0x80 boundary; a completed PUBREL flush marks the release entry of that identifier.",
+            "several exchanges are covered through these per-entry invariants, not enumerated. The PUBCOMP removal takes out exactly the entry it looked up (index provenance: position over the whole list, or over the tail plus one). The removal functions report true exactly when they removed an entry; the PUBREC's lookup of the PUBLISH tests the identifier only (a replayed PUBLISH has DUP set). ReasonCode::success is tabulated over every variant against the 0x80 boundary; a completed PUBREL flush marks the release entry of that identifier. A PUBREC that removed the PUBLISH and carried a success code always queues the release entry.",
             "DESIGN.md §4 C03"),
     "C04": ("path-sensitive must-pass over the inbound handler arms + wiring + who-may-mutate on mir_built",
             "Static analysis, structural clauses only: in the PUBLISH arm every feasible delivering path (QoS 1) / non-error "
@@ -54,7 +54,7 @@ CLAIMED = {
             "identifier was just recorded, recording only when not already pending; every non-error PUBREL path queues a "
             "PUBCOMP with the table-correct reason and forgets the identifier; acks are serialised off-arena into their own "
             "queue; the reset clears pending identifiers; the delivered message is re-decoded from exactly the consumed prefix "
-            "of the untouched receive buffer with fields passed through. Decoder correctness for arbitrary bytes is C08/C09. The session reset that forgets pending inbound identifiers is placed on the no-session edge, on every path, before the handshake can fail for another reason. Nothing in the inbound PUBLISH arm consults the client's own in-flight tables (broker and client identifiers are separate spaces). No await point lies between taking a PUBLISH out of the reader and returning it to the caller (C13's clause). A packet of exactly the advertised Maximum Packet Size fits the receive window (C14's clause). The property iterator advances by exactly what each property occupied; an acknowledgement accepted in part by the transport is neither flushed nor dropped (C13's rule).",
+            "of the untouched receive buffer with fields passed through. Decoder correctness for arbitrary bytes is C08/C09. The session reset that forgets pending inbound identifiers is placed on the no-session edge, on every path, before the handshake can fail for another reason. Nothing in the inbound PUBLISH arm consults the client's own in-flight tables (broker and client identifiers are separate spaces). No await point lies between taking a PUBLISH out of the reader and returning it to the caller (C13's clause). A packet of exactly the advertised Maximum Packet Size fits the receive window (C14's clause). The property iterator advances by exactly what each property occupied; an acknowledgement accepted in part by the transport is neither flushed nor dropped (C13's rule). The completion bookkeeping of a flushed acknowledgement is reached only over the success edge of the flush.",
             "DESIGN.md §4 C04"),
     "C05": ("wiring (expression reconstruction incl. closure captures) + dominance/must-pass on the handshake's mir_built",
             "Static analysis, structural clauses only: clean_start = !session_present and the client id wiring of CONNECT; "
@@ -69,21 +69,21 @@ CLAIMED = {
             "publishes still in flight at (re)connect; decrement tied to the successful enqueue and await-free; the gate "
             "dominates encoding; increments have the shape min(q+1,max), occur only in the PUBACK / PUBCOMP / failing-PUBREC "
             "arms, only after the matching removal, and on every such path. The counting invariant over histories follows "
-            "from these per-operation facts and is not itself computed. max_inflight() is a constant no larger than the capacity of either table an exchange passes through; the in-flight count entering the stored quota is read after the fresh-session reset. The removal functions whose result credits the window report true exactly when an entry was removed; both window fields are stored by every successful handshake. No PUBREL follows a failing PUBREC (C03's clause; its PUBCOMP would credit a second slot); ReasonCode::success tabulated.",
+            "from these per-operation facts and is not itself computed. max_inflight() is a constant no larger than the capacity of either table an exchange passes through; the in-flight count entering the stored quota is read after the fresh-session reset. The removal functions whose result credits the window report true exactly when an entry was removed; both window fields are stored by every successful handshake. No PUBREL follows a failing PUBREC (C03's clause; its PUBCOMP would credit a second slot); ReasonCode::success tabulated. The in-flight count taken off a resumed window reads the packet type only, never the send state.",
             "DESIGN.md §4 C06"),
     "C07": ("type-level fact (NonZeroU16) + wiring of every identifier sink to the allocator + must-pass over the "
             "allocator's lookups on mir_built",
             "Static analysis, structural clauses only: identifiers are non-zero by type; every identifier-bearing header, "
             "enqueue and handle takes the allocator's result of the same operation; the allocator returns an identifier "
             "only after looking that very value up in the retained and release lists and finding it absent. With the last "
-            "clause the clause set is the property (for the in-flight sets the crate keeps). Non-zero holds by type, by a test of the value handed out, or by the invariant that every store to the counter is provably non-zero. The tables the allocator consults lose only the entry an acknowledgement names (index provenance). Header QoS bits and identifier allocation use the same effective QoS (C19's rule).",
+            "clause the clause set is the property (for the in-flight sets the crate keeps). Non-zero holds by type, by a test of the value handed out, or by the invariant that every store to the counter is provably non-zero. The tables the allocator consults lose only the entry an acknowledgement names (index provenance). Header QoS bits and identifier allocation use the same effective QoS (C19's rule). An identifier leaves the retained list on a successful PUBREC only to enter the release list.",
             "DESIGN.md §4 C07"),
     "C12": ("dominance over Session::connect + store-shape of the reset functions + provenance of the CONNECT buffer",
             "Static analysis, structural clauses only: reader reset, timer reset and the unconditional re-arm of all queues "
             "dominate the handshake on every path and connect() has no exit that bypasses the handshake; CONNECT is the first "
             "I/O; the CONNECT scratch must not depend on in-flight state (known finding: it is the arena tail). Because the "
             "resets are unconditional the clause holds for every prior history (all crash points of all operations) without "
-            "enumerating them. Broker behaviour is not modelled. What CONNECT advertises (Receive Maximum, Maximum Packet Size, Session Expiry) is computed from configuration and capacities, never from in-flight state. The window of a reconnected session is not charged for publishes discarded with the previous broker session. Compaction reclaims every hole (no return of compact bypasses the pass over the retained list), so the free tail CONNECT is encoded into is as large as the retained packets allow (C17's compact / used groups). The four negotiated runtime fields are stored by every successful handshake from the CONNACK or the default, never from their previous value.",
+            "enumerating them. Broker behaviour is not modelled. What CONNECT advertises (Receive Maximum, Maximum Packet Size, Session Expiry) is computed from configuration and capacities, never from in-flight state. The window of a reconnected session is not charged for publishes discarded with the previous broker session. Compaction reclaims every hole (no return of compact bypasses the pass over the retained list), so the free tail CONNECT is encoded into is as large as the retained packets allow (C17's compact / used groups). The four negotiated runtime fields are stored by every successful handshake from the CONNACK or the default, never from their previous value. Nothing from a CONNACK reaches session state while its property block is examined, by store or by a call handed &mut of a state field (C08's rule).",
             "DESIGN.md §4 C12"),
     "C13": ("taint of transport byte counts vs. await points (Yield terminators of the pre-transform coroutine MIR) over "
             "the call tree + await-freedom of critical sections",
@@ -91,14 +91,14 @@ CLAIMED = {
             "operations the byte count is committed to session state (or returned to a caller that commits it) before the "
             "next await on every path, so dropping the future at any await loses no progress; allocation..enqueue sections "
             "are await-free; enqueue precedes the first write; progress setters store what they are given. One genuine "
-            "defect (disconnect via write_all) is a known finding. Equality of cancelled and uncancelled runs is not decided. The keep-alive's already-queued test sees a PINGREQ in state Write and in state Flush (truth table of the per-entry test). Setter parameters are resolved by position (a transposed signature is seen at the call site); a flush resumed after a cancellation is booked on the entry of the same queue and identifier (C02's clause). The flush after a write is reached only over the written + count >= len edge; every direct transport write of an operation is preceded by a drain (C01's rule; its known finding on disconnect_with is listed here as well).",
+            "defect (disconnect via write_all) is a known finding. Equality of cancelled and uncancelled runs is not decided. The keep-alive's already-queued test sees a PINGREQ in state Write and in state Flush (truth table of the per-entry test). Setter parameters are resolved by position (a transposed signature is seen at the call site); a flush resumed after a cancellation is booked on the entry of the same queue and identifier (C02's clause). The flush after a write is reached only over the written + count >= len edge; every direct transport write of an operation is preceded by a drain (C01's rule; its known finding on disconnect_with is listed here as well). Completion bookkeeping only after a successful flush; at every transport call the latch is known unset (C11's rule).",
             "DESIGN.md §4 C13"),
     "C14": ("sibling agreement of the size predicates + must-pass (path-sensitive where needed) of size checks before "
             "every write/enqueue + wiring of the advertised and the broker limit",
             "Static analysis, structural clauses only: the four predicates are `len > max as usize` and answer PacketTooLarge; "
             "each transport write and each enqueue is dominated by the success edge of a size check of the very packet; "
             "CONNECT advertises the receive-buffer length and the broker limit is written only from the CONNACK; the receive "
-            "window is sliced only within the buffer. Sizes around the limit are not enumerated. Every successful handshake stores the limit itself, so it is the limit of the current CONNACK.",
+            "window is sliced only within the buffer. Sizes around the limit are not enumerated. Every successful handshake stores the limit itself, so it is the limit of the current CONNACK. The reader's refusal of an oversize packet latches the handle (C11's inbound latch clauses).",
             "DESIGN.md §4 C14"),
     "C09": ("table extraction from MIR (match arms, generic arguments, aggregates) compared cell by cell with MQTT 5 and "
             "between sibling tables; value-set folding of flag bytes with control-dependence guards; interval abstract "
@@ -108,7 +108,7 @@ CLAIMED = {
             "encoded_len vs the varint boundaries for every bit-length class; CONNECT flags, subscription options and "
             "PUBLISH flags bit by bit with their guards; CONNECT field wiring and the field order of all packet "
             "serializers; checked u16 length prefixes. This covers all property kinds x packets without enumerating "
-            "values. Byte-level round trips and user payload closures are not decided. Properties::size adds up encoded sizes, never element counts. The publication builder keeps a correlation entry whatever user properties are installed before or after it (C20's clauses).",
+            "values. Byte-level round trips and user payload closures are not decided. Properties::size adds up encoded sizes, never element counts. The publication builder keeps a correlation entry whatever user properties are installed before or after it (C20's clauses). Header QoS and identifier allocation use the same effective QoS (C19's rule).",
             "DESIGN.md §4 C09"),
     "C10": ("who-may-write + dependence (fields read by the ping-due test) + dominance/post-dominance + decision-table "
             "extraction (truth table of the due test over the Option states) + interval abstract interpretation of the "
@@ -119,13 +119,13 @@ CLAIMED = {
             "both deadlines, one shared constant, zero disables, and (by interval abstract interpretation over keep-alive "
             "classes) that the PINGREQ lead time is positive and below the keep-alive for every keep-alive >= 1 s. Every other "
             "arithmetic or temporal aspect (the observed gap never exceeding the keep-alive, coincidences at the deadlines, "
-            ">= vs >) is NOT decided: it needs a model of time.",
+            ">= vs >) is NOT decided: it needs a model of time. service() (which tests the PINGRESP deadline first) is called only when no complete inbound packet is waiting.",
             "DESIGN.md §4 C10"),
     "C15": ("wiring of partial-I/O counts + value-set evaluation of the reader's look-ahead on mir_built",
             "PARTIAL: static analysis decides only that partial-I/O counts are what advances state: commit(count of this "
             "read), read_bytes += count, window from read_bytes, bounded look-ahead while the length is unknown, "
             "bytes[written..] resume, cursor advance by the accepted count, zero-length I/O handling, take buffer[..len]. "
-            "Equality of whole runs under different chunkings is a relation between executions and is NOT decided. Every queued entry restarts from byte 0 on a new transport (C01's clause): an offset counted on one transport never selects the bytes sent on the next. The drive loop reports Idle / Advanced only when no outbound step remains; the step/setter clauses of C13.",
+            "Equality of whole runs under different chunkings is a relation between executions and is NOT decided. Every queued entry restarts from byte 0 on a new transport (C01's clause): an offset counted on one transport never selects the bytes sent on the next. The drive loop reports Idle / Advanced only when no outbound step remains; the step/setter clauses of C13. The packet reader is reset before every handshake (C12's rule).",
             "DESIGN.md §4 C15"),
     "C17": ("who-may-write / who-may-borrow-mutably census of the arena + dominance (compact before every view) + wiring",
             "Static analysis, structural clauses only: every mutable arena view is buf[used..] after a dominating compact; "
@@ -162,7 +162,7 @@ CLAIMED = {
             "obligation discharged by a constant condition, a type-level fact, or a named dominating guard that is re-checked "
             "on the current tree (a new site or a lost guard is a violation); type dispatch, flag nibble per type, QoS 3, the "
             "trailing-payload whitelist and the varint bounds/overlong test against MQTT 5; the unreachable!() sites are dead "
-            "by variant flow; decode/protocol errors latch (C11 inbound clauses). 'No panic for any byte string' is thereby a "
+            "by variant flow; decode/protocol errors latch (C11 inbound clauses); the packet reader is reset before every handshake (C12's rule); every property identifier decodes to its own variant and the property iterator advances by exactly what each property occupied. 'No panic for any byte string' is thereby a "
             "finite obligation list instead of a sampled input space. Exact field values are decided only through the C09 "
             "type/layout tables. Nothing from a CONNACK is written into session state while its property block is still being examined.",
             "DESIGN.md §4 C08"),
